@@ -164,7 +164,7 @@ impl Prop for C13 {
     }
     fn runs(&self, tier: Tier) -> u64 {
         match tier {
-            Tier::Quick => 600,
+            Tier::Quick => 850,
             Tier::Thorough => 12000,
         }
     }
